@@ -29,7 +29,7 @@ EXPLANATION = ('KyteaWsConstFilter, SplitLinebreaksFilter, ConcatGraphemeCluster
                'vaporetto) are executed symbolically on sentences with symbolic characters, labels and tags; z3 decides on every path that the label/tag at each '
                'position after the filter is the rule\'s forced value where the rule applies and the previous value elsewhere, that text, character types and the '
                'other annotations are untouched, that a second application changes nothing, and that every unchecked access stays in bounds.')
-ASSUMPTIONS = ['std container models of mirsym; hashbrown::HashMap as association list', 'unicode-segmentation: graphemes(true).next() returns a non-empty prefix ending on a char boundary (nothing else assumed)']
+ASSUMPTIONS = ['std container models of mirsym; hashbrown::HashMap as association list', 'unicode-segmentation: the segmentation of a text is a function of the text; CR LF is one cluster, CR/LF otherwise stand alone, two ASCII characters are never in one cluster (UAX #29 GB3-GB5, GB999); nothing else assumed']
 MUST_REACH = ['wsconst: labels are rule-or-previous', 'linebreaks: labels are rule-or-previous', 'graphemes: labels are rule-or-previous', 'tagger: only absent tags of tokens with a rule change',
               'filter is idempotent', 'cover:rule-applies']
 
@@ -74,7 +74,7 @@ def make(e, progs, job):
 
     def harness(e):
         n = job['n']; f = job['filter']
-        specials = {'wsconst': '', 'linebreaks': '\r\n', 'graphemes': '', 'tagger': 'ab'}[f]
+        specials = {'wsconst': '', 'linebreaks': '\r\n', 'graphemes': '\r\n', 'tagger': 'ab'}[f]
         ss = S.sym_string(e, 'x', n, specials, exclude='\0')
         st['s'] = ss
         sv = hlib.build_str(e, ss.chars)
@@ -99,8 +99,40 @@ def make(e, progs, job):
         filt, fty = mk_filter(e, prog, job)
         fcell = Cell(filt)
         e.grapheme_choices = []
+        e.grapheme_plan = None
+        clusters = []
+        if f == 'graphemes':
+            # one segmentation of the text, fixed before the filter runs: any segmentation consistent with these UAX #29 facts —
+            # CR LF is one cluster (GB3); there is a break before and after CR / LF otherwise (GB4, GB5); two ASCII characters are never
+            # in one cluster otherwise (no ASCII character extends a cluster).  Everything else is the oracle's free choice.
+            from models.m_str import char_width
+            widths = [char_width(e, c) for c in ss.chars]
+            cur = 1
+            for i in range(n - 1):
+                a, b = ss.chars[i], ss.chars[i + 1]
+                if S.char_is(a, '\r') and S.char_is(b, '\n'):
+                    join = True
+                elif any(S.char_is(x, ch) for x in (a, b) for ch in '\r\n'):
+                    join = False
+                elif widths[i] == 1 and widths[i + 1] == 1:
+                    join = False
+                else:
+                    join = e.choose(2) == 1
+                if join:
+                    cur += 1
+                else:
+                    clusters.append(cur); cur = 1
+            clusters.append(cur)
+            plan = {}
+            textobj = hlib.fval(cell.v, 'text')
+            off = 0; ci = 0
+            for cl in clusters:
+                end = off + sum(widths[ci:ci + cl])
+                plan[off] = end
+                off = end; ci += cl
+            e.grapheme_plan = plan
         e.run(hlib.fn(prog, fty, 'filter', 'SentenceFilter'), [Ref(fcell), Ref(cell)])
-        clusters = list(e.grapheme_choices)
+        e.grapheme_plan = None
         o = S.observe(e, prog, cell, writers=False, tokens=False)
         # frame: text, char types
         e.check(bytes_eq(e, o.raw, sv.b), 'text untouched')
